@@ -321,3 +321,22 @@ MUTANTS += [
     M("c09-r3-pri-slice", "C09", "C09.R3", SPARSE, "\tpri := val[1 : len(val)-2]\n", "\tpri := val[2 : len(val)-2]\n", "PRI token '<>1': val[2:1]"),
     B("c09-r3-benign-severity-mod", "C09", SPARSE, "\tseverity := priVal & 0b111\n", "\tseverity := priVal & 7\n"),
 ]
+
+ENCC = "output/fastmsgpack/encodecollections.go"
+
+MUTANTS += [
+    # ---------------- C10
+    M("c10-r1-string4-boundary", "C10", "C10.R1", ESER, "\t\t\t\tcase len(value) < 16:\n\t\t\t\t\tposition = fastmsgpack.EncodeString4(buffer, position, value)\n\t\t\t\tcase len(value) < 65536:\n\t\t\t\t\tposition = fastmsgpack.EncodeString16(buffer, position, value)\n\t\t\t\tdefault:\n\t\t\t\t\tposition = fastmsgpack.EncodeString32(buffer, position, value)\n\t\t\t\t}\n\t\t\t}\n\t\t\trootMapSize++", "\t\t\t\tcase len(value) <= 16:\n\t\t\t\t\tposition = fastmsgpack.EncodeString4(buffer, position, value)\n\t\t\t\tcase len(value) < 65536:\n\t\t\t\t\tposition = fastmsgpack.EncodeString16(buffer, position, value)\n\t\t\t\tdefault:\n\t\t\t\t\tposition = fastmsgpack.EncodeString32(buffer, position, value)\n\t\t\t\t}\n\t\t\t}\n\t\t\trootMapSize++", "a field value of exactly 16 bytes"),
+    M("c10-r1-string16-boundary", "C10", "C10.R1", ESER, "\t\t\tcase len(value) < 65536:\n\t\t\t\tposition = fastmsgpack.EncodeString16(buffer, position, value)\n\t\t\tdefault:\n\t\t\t\tposition = fastmsgpack.EncodeString32(buffer, position, value)\n\t\t\t}\n\t\t}\n\t}\n", "\t\t\tcase len(value) <= 65536:\n\t\t\t\tposition = fastmsgpack.EncodeString16(buffer, position, value)\n\t\t\tdefault:\n\t\t\t\tposition = fastmsgpack.EncodeString32(buffer, position, value)\n\t\t\t}\n\t\t}\n\t}\n", "an environment field value of exactly 65536 bytes"),
+    M("c10-r1-maplen4-boundary", "C10", "C10.R1", ESER, "\tswitch {\n\tcase len(fields)+1 < 16:\n\t\tposition = fastmsgpack.ReserveLen4(position)", "\tswitch {\n\tcase len(fields)+1 <= 16:\n\t\tposition = fastmsgpack.ReserveLen4(position)", "a schema of 15 fields all present: map of 16 entries in a 4-bit header",
+      more=[(ESER, "\tcase len(fields)+1 < 16: // use the same length type as reserved", "\tcase len(fields)+1 <= 16: // use the same length type as reserved")]),
+    M("c10-r2-patch-width-differs", "C10", "C10.R2", ESER, "\t\t\t\t\tcase maxLength < 65536: // use the same length type as reserved\n\t\t\t\t\t\tfastmsgpack.EncodeStringLen16(buffer, reservedLengthPosition, actualLength)", "\t\t\t\t\tcase actualLength < 65536: // use the same length type as reserved\n\t\t\t\t\t\tfastmsgpack.EncodeStringLen16(buffer, reservedLengthPosition, actualLength)", "maximum >= 65536 but actual length below: 3-byte header patched over a 5-byte reservation"),
+    M("c10-r2-rootmap-predicate-differs", "C10", "C10.R2", ESER, "\tcase len(fields)+1 < 16: // use the same length type as reserved", "\tcase rootMapSize < 16: // use the same length type as reserved", "16+ schema fields of which fewer than 15 are present"),
+    M("c10-r3-count-skipped-field", "C10", "C10.R3", ESER, "\t\t\tif fieldMasks[i] || len(value) == 0 {\n\t\t\t\tcontinue\n\t\t\t}\n", "\t\t\tif fieldMasks[i] || len(value) == 0 {\n\t\t\t\trootMapSize++\n\t\t\t\tcontinue\n\t\t\t}\n", "any hidden or empty field: announced map larger than written"),
+    M("c10-r3-rewritten-not-counted", "C10", "C10.R3", ESER, "\t\t\t\tposition += actualLength\n\t\t\t} else {", "\t\t\t\tposition += actualLength\n\t\t\t\tcontinue\n\t\t\t} else {", "any rewritten field: pair written but not counted"),
+    M("c10-r3-count-starts-at-zero", "C10", "C10.R3", ESER, "\trootMapSize := 1 // +1 for nested \"environment\" map", "\trootMapSize := 0 // +1 for nested \"environment\" map", "every record: map announces one entry too few"),
+    M("c10-r3-env-skips-empty", "C10", "C10.R3", ESER, "\t\t\tenvFieldKey := serializedEnvFieldKeys[i]\n\t\t\tvalue := loc.Get(fields)\n", "\t\t\tenvFieldKey := serializedEnvFieldKeys[i]\n\t\t\tvalue := loc.Get(fields)\n\t\t\tif len(value) == 0 {\n\t\t\t\tcontinue\n\t\t\t}\n", "an empty environment field: announced environment map larger than written"),
+    M("c10-r5-inline-writes-unaccounted", "C10", "C10.R5", RINLINE, "\t\tend += copy(buffer[end:], rw.separator)\n", "\t\tend += copy(buffer[end:], rw.separator)\n\t\tend += copy(buffer[end:], rw.trailer)\n", "inline rewriter with a trailer: more bytes than the reserved maximum",
+      more=[(RINLINE, "type inlineRewriter struct {\n", "type inlineRewriter struct {\n\ttrailer string\n")]),
+    B("c10-benign-switch-to-if", "C10", ESER, "\t\t// encode the length of environment map\n\t\tswitch {\n\t\tcase len(envFieldLocators) < 16:\n\t\t\tposition = fastmsgpack.EncodeMapLen4(buffer, position, len(envFieldLocators))\n\t\tdefault:\n\t\t\tposition = fastmsgpack.EncodeMapLen16(buffer, position, len(envFieldLocators))\n\t\t}", "\t\t// encode the length of environment map\n\t\tif len(envFieldLocators) < 16 {\n\t\t\tposition = fastmsgpack.EncodeMapLen4(buffer, position, len(envFieldLocators))\n\t\t} else {\n\t\t\tposition = fastmsgpack.EncodeMapLen16(buffer, position, len(envFieldLocators))\n\t\t}"),
+]
